@@ -38,6 +38,21 @@ Calibration (unchanged tree, seeds 0,1,2,7,12345 quick + one thorough run)
   with a 10 s alarm under PYTHONHASHSEED=0).  It also occurs on a *borrowed*
   graph: the raw (mixed) graph of ``da.stack([x, 2*x])`` for
   ``x = da.from_array(...)`` with one root block key left out.
+* Genuine defect 3 (label ``order:striplists>=2+data-root-only-under-striplists:
+  acyclic-rejected:IndexError@order.py:get_target``), first seen in the thorough
+  run among the sampled n = 6 programs: a literal with >= 2 dependents is
+  removed by the data-root stripping and parked in ``requires_data_task`` of its
+  dependents; when all of those are non-task lists that are themselves stripped
+  as leaves in later passes, the literal never gets a priority and the main
+  loop ends in ``leaf_nodes_sorted.pop()`` on an empty list.  Needs list nodes
+  nested three deep (>= 6 keys), hence the dedicated "tower" generator.
+* Defects 1 and 2 were committed to /repo by the lead (d6fa8cf, d4e40d1) while
+  this module was being calibrated; their PENDING entries are kept for the
+  record and no longer fire on the current tree.
+* Step bound: the first bound (quadratic with factor 40) let two 150-key
+  non-terminating calls of defect 2 run into the 120 s wall watchdog on a heavily
+  loaded machine; order() was measured at <= 165 lines per (key + edge), the
+  bound is now 20 000 + 4 000 (n+e) + 2 (n+e)^2.
 * No false alarm was observed.  Checked during development, outside the module:
   the harness' dependency lists agree with DependenciesMapping on 52 331
   generated nodes and ``_walk`` agrees with it on 4 975 borrowed nodes; with both
@@ -59,7 +74,8 @@ RULE = ("cases = DAG programs (n, upper-triangular dependency mask, per-node kin
         "task, Y nested task-spec Task}, optional single back edge) each run under variants external-reference mode x "
         "return_stats x key style/permutation; all shapes on n<=4 x all T/N/S/D kind vectors enumerated completely, all "
         "single-back-edge cyclic variants of those shapes, sampled n=5,6, random layered / tree-reduction / diamond / "
-        "fan graphs to 200 nodes with planted cycles, graphs borrowed from dask arrays, bags and delayed values (raw, "
+        "fan graphs to 200 nodes with planted cycles, towers of nested list nodes over tasks and shared literals "
+        "(n = 4..8), graphs borrowed from dask arrays, bags and delayed values (raw, "
         "optimized, with roots dropped = external references, with an alias back edge) plus the order() calls the "
         "synchronous scheduler makes while computing them; non-trivial = at least one dependency edge; distinct = "
         "distinct (n, edges, kinds, back edge) program or borrowed recipe+parameters")
@@ -105,6 +121,8 @@ TECHNIQUE = ("runtime monitoring: return-value contract on the real order() (key
 CASE_TIMEOUT = 120
 
 PENDING = {
+    # the striplists>=2:{duplicate-priority,priority-not-above-dependency} and legacy-arg-names-external-key:* entries were
+    # fixed in /repo by the lead (d6fa8cf, d4e40d1) during calibration; the data-root-only-under-striplists entry is open
     "order:striplists>=2:duplicate-priority:involves-striplist":
         ">=2 non-task list leaves with >=2 deps: 2nd stripped leaf gets len(dsk)-1-n_removed on the shrinking dsk and "
         "collides with a priority of the remaining graph",
@@ -114,6 +132,10 @@ PENDING = {
         "mixed legacy/task-spec graph, a legacy node names a key that a task-spec node references outside the graph: "
         "order() adds a DataNode under that name to the dict DependenciesMapping reads, dependencies/dependents diverge "
         "after the cache is cleared -> KeyError / AssertionError / ZeroDivisionError / bogus 'Cycle detected'",
+    "order:striplists>=2+data-root-only-under-striplists:acyclic-rejected:IndexError@order.py:get_target":
+        "a literal/DataNode with >=2 dependents, all of them non-task lists stripped as leaves in later passes, is parked "
+        "in requires_data_task and never gets a priority: IndexError('pop from empty list') in get_target; needs >=6 keys "
+        "(still present after d6fa8cf/d4e40d1; fix proposed in findings_proposed/C06.md section 3)",
     "order:legacy-arg-names-external-key:nontermination":
         "same mechanism: the main loop `while len(result) < expected_len` never ends (step bound exceeded; replayed "
         "by hand under PYTHONHASHSEED=0)",
@@ -698,7 +720,7 @@ def run_case(case, ctx):
         if nreal:
             ctx.count("external_ref_calls")
         # a legacy node naming (as a plain argument) a key that a task-spec node references outside the graph
-        feat = COINCIDE if coincide else sfeat
+        feat = COINCIDE if (coincide and "data-root-only" not in sfeat) else sfeat
         if coincide:
             ctx.count("legacy_arg_names_external_key_calls")
         info = {"graph": _show(dsk), "external_keys_referenced": nreal, "variant": {"ext": extmode, "return_stats": stats, "style": style, "perm": perm,
